@@ -1,5 +1,6 @@
 pub mod data;
 pub mod reflex;
+pub mod stream;
 pub mod treecheck;
 pub mod pipeline;
 pub mod optable;
